@@ -121,18 +121,24 @@ structure CoinswapParams where
   unilateralLiquidityFee : Option Dec
   deriving DecidableEq, Repr, Inhabited
 
-/-- modules/coinswap/types/params.go `Params.Validate`: Fee ∈ (0,1), PoolCreationFee positive
-    (its denom is NOT checked), TaxRate ∈ (0,1), UnilateralLiquidityFee ∈ [0,1) -/
-def coinswapValidate (p : CoinswapParams) : Res Unit :=
+/-- modules/coinswap/types/params.go `Params.Validate`: Fee ∈ (0,1), PoolCreationFee positive,
+    TaxRate ∈ (0,1), UnilateralLiquidityFee ∈ [0,1).  The denomination of the pool creation fee is
+    checked only if the code calls `sdk.ValidateDenom` (regenerated fact; it does not at the time
+    of writing). -/
+def coinswapValidateWith (checksDenom : Bool) (p : CoinswapParams) : Res Unit :=
   match decOpenOpen p.fee with
   | .error e => .error e
   | .ok _ =>
     match coinPositive p.poolCreationFee with
     | .error e => .error e
     | .ok _ =>
+      if checksDenom && !validDenom p.poolCreationFee.denom then .error .reject else
       match decOpenOpen p.taxRate with
       | .error e => .error e
       | .ok _ => decClosedOpen p.unilateralLiquidityFee
+
+def coinswapValidate (p : CoinswapParams) : Res Unit :=
+  coinswapValidateWith Gen.Handlers.coinswapValidatesFeeDenom p
 
 def coinswapDefault : CoinswapParams :=
   { fee := some (Dec.withPrec 3 3), taxRate := some (Dec.withPrec 4 1),
@@ -344,8 +350,10 @@ def isHexAddress (s : String) : Bool :=
   decide (body.length = 40) && body.all isHexChar
 
 /-- modules/token/types/v1/params.go `Params.Validate`: tax rate ∈ [0,1], mint ratio ∈ [0,1],
-    base fee not negative (its denom is NOT checked), beacon empty or a hex address -/
-def tokenValidate (p : TokenParams) : Res Unit :=
+    base fee not negative, beacon empty or a hex address.  The base-fee denomination is checked
+    only if `validateIssueTokenBaseFee` calls `sdk.ValidateDenom` (regenerated fact; it does not
+    at the time of writing). -/
+def tokenValidateWith (checksDenom : Bool) (p : TokenParams) : Res Unit :=
   match decClosedClosed p.tokenTaxRate with
   | .error e => .error e
   | .ok _ =>
@@ -356,8 +364,12 @@ def tokenValidate (p : TokenParams) : Res Unit :=
       | .error e => .error e
       | .ok neg =>
         if neg then .error .reject else
+        if checksDenom && !validDenom p.issueTokenBaseFee.denom then .error .reject else
         if p.beacon = "" then .ok () else
         if isHexAddress p.beacon then .ok () else .error .reject
+
+def tokenValidate (p : TokenParams) : Res Unit :=
+  tokenValidateWith Gen.Handlers.tokenValidatesFeeDenom p
 
 def tokenDefault : TokenParams :=
   { tokenTaxRate := some (Dec.withPrec 4 1), issueTokenBaseFee := ⟨"stake", some 60000⟩,
@@ -785,6 +797,13 @@ def genesisAny (p : AnyParams) : Res Unit × Res AnyParams :=
 parameters.  Only the parameter-dependent fragments decide; the inputs are the battery's. -/
 
 def pow2_256i : Int := (pow2_256 : Int)
+
+/-- 2^255 as an integer: amounts below it survive the 18-decimal scaling of `LegacyNewDecFromInt` -/
+def pow2_255 : Int := 57896044618658097711785492504343953926634992332820282019728792003956564819968
+
+/-- 2^128: the magnitude below which every parameter amount and counter keeps the handlers'
+    checked arithmetic far from the 256-bit limit -/
+def pow2_128 : Int := 340282366920938463463374607431768211456
 
 /-- coinswap: the pool-creating `add_btc` runs `DeductPoolCreationFee` -/
 def batteryCoinswap (p : CoinswapParams) : List String :=
